@@ -44,6 +44,13 @@ theorem source_traces_as_modelled :
     Facts.c12_trace_handleInfoResult = Pinned.handleInfoResult := by
   decide
 
+/-- Statement order in `LoadContext` (migration) and `connectContextInner` (spawn), regenerated from
+c2/c2.go: the Profile's defaults are seeded BEFORE the hand-off stream is read, so what the old process
+sent is what the new Session runs with (the round-trip theorems below say the reader reproduces it;
+this obligation says nothing overwrites it afterwards). -/
+theorem handoff_applied_after_profile_defaults :
+    Facts.c12_loadSeedsBeforeHandoff = 1 ∧ Facts.c12_spawnSeedsBeforeSync = 1 := by decide
+
 /-- The six kind constants are pairwise distinct and ordered around `infoRefresh` the way the
 guards `t > infoRefresh` / `t != infoMigrate` need: registration, refresh and migration carry proxy
 data; settings-sync and migration-completion do not; only migration carries identity and keys. -/
